@@ -82,6 +82,9 @@ func c01f0(env *core.Env, kind string) {
 		cfg.Uploads = false // upload semantics through the unifier are C15's subject
 	}
 	n := c.Range("nops", 10, 50)
+	if env.Tier == "thorough" {
+		n = c.Range("nops", 10, 100)
+	}
 	env.Sample("stack=%s immutableTags=%v repos=%v ops=%d server=%+v", kind, immutable, cfg.Repos, n, o.Server)
 	g := reg.NewGen(c, m, cfg)
 	runHistory(env, context.Background(), st.Reg, m, g, n, "C01")
